@@ -13,6 +13,7 @@ import LfsModel.Download
 import LfsModel.DownloadAlt
 import LfsModel.DownloadConc
 import LfsModel.TQTrace
+import LfsModel.TQConcat
 import LfsModel.Backoff
 import LfsModel.FilterProcess
 import LfsModel.CrashExec
@@ -624,6 +625,15 @@ def c13 : List String → String
 
 /-! ### C12 -/
 def c12 : List String → String
+  | ["fixupattr", lines] =>
+    -- lines: `<0|1>:<hex value|none>` in the order Git reads them; answer 1 = --fixup converts the path
+    let ls? : Option (List Rw.AttrLine) := if lines == "-" then some [] else (lines.splitOn ",").mapM fun t =>
+      match t.splitOn ":" with
+      | [m, v] => if v == "none" then some (m == "1", none) else (unhex v).map fun b => (m == "1", some b)
+      | _ => none
+    (match ls? with
+     | some ls => if Rw.fixupConverts ls then "1" else "0"
+     | none => "bad-op")
   | ["rewrite", allow, conv, commits] =>
     -- allow: selected path indices; conv: `path:blob` pairs the blob function changes (to blob+1000);
     -- commits: `|`-separated trees of `path:mode:blob` entries, oldest first
@@ -702,6 +712,19 @@ def answer (line : String) : String :=
   | "C19" :: rest => c19 rest
   | "C03" :: rest => c03 rest
   | "C15" :: rest => c15 rest
+  | ["C06", "concat", now, size, b, other] =>
+    -- items `id:readyAtMs` separated by commas (`-` = none); answer `left|right` as id lists
+    let items (t : String) : Option (List TQConcat.Item) :=
+      if t == "-" then some [] else (t.splitOn ",").mapM fun x =>
+        match x.splitOn ":" with
+        | [i, r] => do let i ← i.toNat?; let r ← r.toInt?; pure (i, r)
+        | _ => none
+    (match now.toInt?, size.toNat?, items b, items other with
+     | some now, some size, some b, some other =>
+       let (l, r) := TQConcat.concat now b other size
+       let sh (xs : List TQConcat.Item) := if xs.isEmpty then "-" else String.intercalate "," (xs.map fun x => toString x.1)
+       sh l ++ "|" ++ sh r
+     | _, _, _, _ => "bad-op")
   | "C18" :: rest => c18 rest
   | "C04" :: rest => c04 rest
   | "C05" :: rest => c05 rest
